@@ -39,6 +39,37 @@ def types():
 
 
 TYPES = types()
+
+
+def bases():
+    """TYPES plus one observed-data base per 2.0 observable type and per (type, predefined extension)"""
+    out = list(TYPES)
+    m = M.model("2.0")
+    for t in m.types_of_class("SCO"):
+        out.append(("2.0", "observed-data:" + t))
+        for e in M.EXT_HOSTS.get(t, []):
+            out.append(("2.0", "observed-data:%s+%s" % (t, e)))
+    return out
+
+
+BASES = bases()
+
+
+def make_base(g, ver, name, prof, granular=True):
+    """(type name, object) for a base name of BASES"""
+    if ":" not in name:
+        return name, g.make(name, prof, granular=granular)
+    sco = name.split(":", 1)[1]
+    ext = None
+    if "+" in sco:
+        sco, ext = sco.split("+", 1)
+    od = g.make("observed-data", "min" if prof == "min" else "random", granular=False)
+    cont = {"0": {"type": sco}}
+    cont["0"] = g.sco20(sco, "min-noref" if prof == "min" else prof, cont)
+    if ext:
+        cont["0"]["extensions"] = {ext: g.fill(g.m.extensions[ext], ext, prof, 1, cont)}
+    od["objects"] = cont
+    return "observed-data", od
 PROFILES_Q = ["max", "min"]
 PROFILES_T = ["max", "min", "random", "random", "random", "random", "max", "random"]
 
@@ -163,11 +194,11 @@ def judge(ctx, ver, t, o, label, where, routes, is_base=False):
 
 
 def wl_bases(ctx, rng, i):
-    ver, t = TYPES[i % len(TYPES)]
-    rnd = i // len(TYPES)
+    ver, bname = BASES[i % len(BASES)]
+    rnd = i // len(BASES)
     prof = (PROFILES_T if ctx.tier == "thorough" else PROFILES_Q)[rnd % 8 if ctx.tier == "thorough" else rnd % 2]
     g = ObjGen(rng, ver, hostile=(rnd % 3 == 2), ts_max_digits=6, openvocab_custom=False)
-    o = g.make(t, prof, granular=(prof != "min"))
+    t, o = make_base(g, ver, bname, prof, granular=(prof != "min"))
     if "granular_markings" in o:
         g2 = ObjGen(rng, ver, hostile=False)
         o.pop("granular_markings")
@@ -178,7 +209,7 @@ def wl_bases(ctx, rng, i):
         return
     all_routes = ["parse-text", "parse-dict", "constructor"]
     judge(ctx, ver, t, o, "none (valid base)", "", all_routes, is_base=True)
-    ctx.see("base types", "%s:%s" % (ver, t))
+    ctx.see("base types", "%s:%s" % (ver, bname))
     n = 0
     two = rng if ctx.tier == "thorough" else None
     for label, where, oo in corrupt.corruptions(ver, o, two):
@@ -239,7 +270,7 @@ def wl_nearvalid(ctx, rng, i):
 
 
 WORKLOADS = [
-    Workload("bases", wl_bases, quick=lambda: len(TYPES) * 2, thorough=lambda: len(TYPES) * 8, exhaustive=True),
+    Workload("bases", wl_bases, quick=lambda: len(BASES) * 2, thorough=lambda: len(BASES) * 8, exhaustive=True),
     Workload("nearvalid", wl_nearvalid, quick=300, thorough=20000),
 ]
 
@@ -253,7 +284,7 @@ def floors(m, tier):
         out.append("fewer than 5000 faults injected (%d)" % c.get("faults", 0))
     if c.get("valid_base_refused", 0) > 0.5 * max(1, len(m["seen"].get("base types", ()))) * 3:
         out.append("most valid bases were refused (%d refusals): nothing to validate" % c.get("valid_base_refused", 0))
-    missing = [("%s:%s" % vt) for vt in TYPES if ("%s:%s" % vt) not in m["seen"].get("base types", set())]
+    missing = [("%s:%s" % vt) for vt in BASES if ("%s:%s" % vt) not in m["seen"].get("base types", set())]
     if missing:
         out.append("types without a base: %s" % ", ".join(missing[:6]))
     return out
